@@ -339,6 +339,12 @@ def fixed_scenarios(ctx, mon):
                         segs = [g1, mid] + ([g2] if g2 else []) + ([last] if last else [])
                         pats.append(segs)
                         pats.append([(('star',),)] + segs)
+        # adjacent recursive segments are one: `**/**` follows nothing, `**/***` and `***/**` follow links (under GLOBSTARLONG)
+        for a, b in ((GS, GS), (GS, GL_), (GL_, GS), (GL_, GL_)):
+            for tail in ([], [lit('z')], [lit('m')], [(('star',),)], [lit('m'), (('star',),)]):
+                pats.append([a, b] + tail)
+                pats.append([lit('A'), a, b] + tail)
+                pats.append([a, b, a] + tail)
         todo = []
         for pi, segs in enumerate(pats):
             for fi, fn in enumerate((('GLOBSTARLONG',), ('GLOBSTARLONG', 'FOLLOW'), (), ('FOLLOW',), ('GLOBSTARLONG', 'DOTGLOB'))):
